@@ -7,6 +7,7 @@ source on every run; `Hot.readMsg`/`sendMsg` are a hand-written model of rpc.go 
 the differential run over real unix sockets.
 -/
 import SamVerif.Model.Hot
+import SamVerif.Gen.HotText
 namespace SamVerif.Props.C17
 open SamVerif SamVerif.Hot
 
@@ -137,6 +138,51 @@ theorem old_panics_on_full_buffer :
 example : child 4096 [sendMsg 1 2 [123,125], sendMsg 5 2 [123,125], sendMsg 7 2 [123,125]] =
     [.act "ShutdownAdmin", .reply 2, .act "DrainListeners", .reply 6, .reply 8, .act "kill"] := by decide +kernel
 
+/-- **The code the model was written against.** The statements of the modelled functions,
+regenerated from the current source on every run, are the ones the model was written against;
+any edit to one of them makes this obligation fail and starts a search for a failing input. -/
+theorem control_loop_matches_model :
+    Gen.HotText.handleChild =
+      ["logger.Info(\"Child connected\")",
+      "defer func() { logger.Info(\"Child disconnected\") }()",
+      "go func() { <-r.quit conn.Close() }()",
+      "for { select { case <-r.quit: return default: } msgs, err := readMessages(conn) for _, msg := range msgs { logger.Debugf(\"Receive message %v from child\", msg) r.dispatch(conn, msg) } if err != nil { if ne, ok := err.(*net.OpError); ok && ne.Err == io.EOF { return } logger.Warnf(\"Read msg from child failed: %v\", err) } }"] ∧
+    Gen.HotText.dispatch =
+      ["var handle func(from *net.UnixConn, data []byte)",
+      "switch msg.Type { case shutdownLocalConfReq: handle = r.handleShutdownLocalConfRequest case shutdownAdminReq: handle = r.handleShutdownAdminRequest case drainListenersReq: handle = r.handleDrainListenersRequest case terminateReq: handle = r.handleTerminateRequest default: handle = r.handleUnknownRequest }",
+      "handle(conn, msg.Data)"] ∧
+    Gen.HotText.readMessage =
+      ["b := make([]byte, 4096)",
+      "n, _, _, _, err := conn.ReadMsgUnix(b, nil)",
+      "if err != nil { return nil, err }",
+      "msg, _, err := parseMessage(b[:n])",
+      "return msg, err"] ∧
+    Gen.HotText.readMessages =
+      ["b := make([]byte, 4096)",
+      "n, _, _, _, err := conn.ReadMsgUnix(b, nil)",
+      "if err != nil { return nil, err }",
+      "b = b[:n]",
+      "var msgs []*message",
+      "for { msg, rest, err := parseMessage(b) if err != nil { return msgs, err } msgs = append(msgs, msg) if len(rest) == 0 { return msgs, nil } b = rest }"] ∧
+    Gen.HotText.parseMessage =
+      ["if len(b) < 3 { return nil, nil, errors.New(\"invalid header\") }",
+      "msg := new(message)",
+      "msg.Type = messageType(b[0])",
+      "msg.Len = uint16(b[1])<<8 | uint16(b[2])",
+      "end := 3 + int(msg.Len)",
+      "if len(b) < end { return nil, nil, errors.New(\"incomplete data\") }",
+      "msg.Data = b[3:end]",
+      "return msg, b[end:], nil"] ∧
+    Gen.HotText.sendMessage =
+      ["b := make([]byte, 3+msg.Len)",
+      "b[0] = byte(msg.Type)",
+      "b[1] = byte(msg.Len >> 8)",
+      "b[2] = byte(msg.Len)",
+      "copy(b[3:], msg.Data)",
+      "_, _, err := conn.WriteMsgUnix(b, nil, nil)",
+      "return err"] := by
+  refine ⟨rfl, rfl, rfl, rfl, rfl, rfl⟩
+
 end SamVerif.Props.C17
 
 #print axioms SamVerif.Props.C17.dispatch_matches_spec
@@ -148,3 +194,4 @@ end SamVerif.Props.C17
 #print axioms SamVerif.Props.C17.later_child_completes
 #print axioms SamVerif.Props.C17.old_accepts_short_frame
 #print axioms SamVerif.Props.C17.old_panics_on_full_buffer
+#print axioms SamVerif.Props.C17.control_loop_matches_model
